@@ -209,6 +209,14 @@ def stepPQ (timed : Bool) (s : St) (toks : List String) : St × String :=
     match v.toNat?, p.toInt? with
     | some v, some p => let r := push s v p; (r.1, if timed then "ok" else toString r.2)
     | _, _ => (s, "bad-op")
+  | ["push", v, p, _rep] =>   -- timed queue: `_rep` names the time.Time representation of instant p
+    match v.toNat?, p.toInt? with
+    | some v, some p => let r := push s v p; (r.1, if timed then "ok" else toString r.2)
+    | _, _ => (s, "bad-op")
+  | ["popuntil", p, _rep] =>
+    match p.toInt? with
+    | some p => let r := popUntil s p; (r.1, showVals r.2)
+    | none => (s, "bad-op")
   | ["remove", h] =>
     match h.toNat? with
     | some h => (if timed then s else removeHandle s h, "ok")
